@@ -56,7 +56,7 @@ CHECKS = {
 
  "C17": ("E6 OS fault harness", "fault_enumeration",
    "model-based testing of open modes (enumerated) + crash-point enumeration (file inspected after every work() return, generated batch sizes / sample types / stream sizes) + crash-point fault injection (SIGKILL of a child process at generated points, prefix/acknowledgement oracle)",
-   "All 54 combinations of mode x initial file state x sink kind are enumerated against a model of the documented modes; a child process streams seeded data through the sink and acknowledges consumed counts after every work(); it is SIGKILLed after a generated number of acknowledgements plus a generated spin, and the file must be a prefix of the serialised stream at least as long as what was acknowledged; in-process, the file is read through a second descriptor after every work() return (what a kill at that instant leaves) for FileSink<u8|f32|Complex|u32> with batches of 1-200 000 samples on 8 KiB-4 MB streams; crash points inside a call: FIFO destination drained in pieces (consumed <= read + pipe capacity at every observation) and /dev/full (a failed write consumes nothing).",
+   "All 54 combinations of mode x initial file state x sink kind are enumerated against a model of the documented modes; a child process streams seeded data through the sink and acknowledges consumed counts after every work(); it is SIGKILLed after a generated number of acknowledgements plus a generated spin, and the file must be a prefix of the serialised stream at least as long as what was acknowledged; in-process, the file is read through a second descriptor after every work() return (what a kill at that instant leaves) for FileSink<u8|f32|Complex|u32> with batches of 1-200 000 samples on 8 KiB-4 MB streams; crash points inside a call: FIFO destination drained in pieces (consumed <= read + pipe capacity at every observation) and /dev/full (a failed write consumes nothing); Append with a second appender on the same file.",
    "process death, not power loss; root user (structural instead of permission-based failures); kill instants sampled, oracle valid for any instant", "DESIGN.md §5 C17"),
 
  "C03": ("E4 schedule explorer", "exploration",
